@@ -9,8 +9,11 @@ import TorrentVerif.Model.Effects
                   field is kept so that the old behaviour can be stated (`Impl.stepMemo`) and
                   refuted; `Impl.procStep` never reads or writes it.
   * `callbacks`   class-level callback slots (`CbMixin.set_callback` stores on the class;
-                  `rebuild.Assembler` registers a bound method there, `MetaFile.set_callback`
-                  forwards to the hasher class)
+                  `MetaFile.set_callback` forwards to the hasher class).  `rebuild.Assembler`
+                  used to register its bound method on the `Metadata` CLASS, so the assembler
+                  constructed last received the counts of all others (repaired in /repo: the
+                  callback is now set on each `Metadata` instance); no operation of a history
+                  writes this field any more
   * `checkerHook` `recheck.Checker._hook` (class attribute set by `register_callback`)
   * `quiet`       `cli.Config.activate_quiet()` (logging configuration)
   * `debug`       environment variable `TORRENTFILE_DEBUG` (`utils.toggle_debug_mode`)
@@ -59,15 +62,13 @@ namespace Impl
 
 /-- One operation: new process state, new filesystem, observable result (`none` for a bare
     filesystem change).  Process-state writes: every CLI entry runs `toggle_debug_mode(False)`;
-    `recheck` through the library may register a hook; `rebuild` registers the assembler's
-    callback on the `Metadata` class. -/
+    `recheck` through the library may register a hook. -/
 def procStep {A O : Type} (R : Results A O) (σ : Proc) (fs : FS) : POp A → Proc × FS × Option O
   | .create a => ({ σ with debug := false }, (R.create a fs).2, some (R.create a fs).1)
   | .fsmutate p c => (σ, (match c with | some b => fs.set p b | none => fs.del p), none)
   | .edit a => ({ σ with debug := false }, (R.edit a fs).2, some (R.edit a fs).1)
   | .recheck a => ({ σ with debug := false, checkerHook := true }, fs, some (R.recheck a fs))
-  | .rebuild a => ({ σ with debug := false, callbacks := "assembler" :: σ.callbacks },
-                   (R.rebuild a fs).2, some (R.rebuild a fs).1)
+  | .rebuild a => ({ σ with debug := false }, (R.rebuild a fs).2, some (R.rebuild a fs).1)
   | .magnet a => ({ σ with debug := false }, fs, some (R.magnet a fs))
 
 /-- A history run in ONE process: per step the observable result and the filesystem after it. -/
